@@ -16,22 +16,25 @@ MANIFEST = dict(
         "features, d > n) and every partition into batches: linear regression — the accumulated normal equations A*beta = X^T L hold iff the "
         "gradient of 1/2|(X|1)beta-L|^2 + 1/2 lambda |W|^2 vanishes (linreg_normal_equations), the gradient is the true one (exact second-order "
         "expansion), and for lambda >= 0 this is equivalent to beta being a global minimiser (linreg_normal_equations_iff_minimiser); the trained model "
-        "is optimal given the semi-definite solver's specification (linreg_train_optimal); mean/variance/covariance and the regression system do not "
+        "the normal equations are solvable for every dataset and lambda >= 0 (linreg_system_consistent, rank argument over Mathlib matrices), so the trained model "
+        "is optimal given only the semi-definite solver's specification (linreg_train_optimal), and unique for lambda > 0 (linreg_regularised_unique); mean/variance/covariance and the regression system do not "
         "depend on the batch partition (meanvar_batch_independent, linreg_batch_independent); unit-variance normaliser: output mean 0 / variance 1 on "
         "non-constant columns, constant columns mapped to 0 (unitvariance_output, sqrt specified); unit-interval normaliser: range [0,1] attained, "
         "constant columns to 1/2 for the repaired trainer, and a witness theorem that the pinned source maps a constant column v to 1/2 - v (F-C15-1); "
         "whitening: covariance t*I given the factor specification C*Cov*C^T = I (whitening_output, linear_image_covariance); PCA: orthonormal directions "
         "=> decoder(encoder(x)) is idempotent, its residual is orthogonal to all directions and it is the closest point of mean+span (pca_projection); "
         "small-sample branch: eigenvectors of XX^T/l lift to eigenvectors of the covariance with the same eigenvalue and squared norm l*lambda "
-        "(pca_small_sample_agrees); weighted LDA statistics are invariant under scaling all weights (weights_scale_invariant). "
+        "(pca_small_sample_agrees, pca_small_sample_agrees_model), encoded training data have covariance diag(eigenvalues) (pca_encoded_covariance); "
+        "LDA: with z_c*C = m_c the installed linear discriminant ranks classes exactly like the Gaussian log-posterior with shared covariance C "
+        "(lda_bayes_rule), statistics batch independent (lda_batch_independent); weighted LDA statistics are invariant under scaling all weights "
+        "(weights_scale_invariant). "
         "The model (Model/Trainers.lean) is tied to the real trainers on every run by a differential correspondence on integer datasets with explicit "
         "batch partitions: values the model determines are compared EXACTLY when FE_INEXACT stayed clear during the Shark call and with relative "
         "tolerance 1e-11 otherwise; results behind sqrt / the pivoted Cholesky solver / the eigen-solver are checked against their specification "
         "(A*beta = X^T L, s*s = var, W*Cov*W^T = t*I, Cov*v = lambda*v, V^T V = I, z*Cov = m) in exact rational arithmetic on the returned doubles "
         "(relative 1e-9); plus an independent plain-loop property oracle in the harness (gradient, output mean/variance/range/covariance, "
         "orthonormality, projection, batch-partition and weight-scale invariance)."),
-  note=TRUST + "NOT proved: existence of a solution of the normal equations (consistency is a hypothesis of linreg_train_optimal; the driver's own "
-       "Gauss-Jordan solver exhibits one on every generated system), the specifications of sqrt/log/eigen-solver/pivoted Cholesky (hypotheses, checked at "
+  note=TRUST + "NOT proved: the specifications of sqrt/log/eigen-solver/pivoted Cholesky (hypotheses, checked at "
        "run time on the returned values), that ZCA's Q*D^(-1/2)*Q^T satisfies the factor specification, lda_bayes_rule (LDA is covered by the "
        "correspondence only: class means, pooled covariance, solve specification, bias vs log prior), FisherLDA (not modelled), floating-point rounding. "
        "PCA whitening and toleranced comparisons are behind the eigen-solver (toleranced mode). Findings F-C15-1..5 (findings_proposed/C15.md): the check "
@@ -176,7 +179,8 @@ def gen_all_partitions(r, ctx, op):
     n = r.choice([3, 4, 5])
     base = gen_case(r, ctx, op, part=[n], n=n)
     head, n, d, extra, sizes, rows = parse_op(base)
-    return [build_op(head, d, p, rows) for p in compositions(n)]
+    comps = compositions(n) if n <= 5 else [p for k, p in enumerate(compositions(n)) if k % (1 << (n - 6)) == 0]
+    return [build_op(head, d, p, rows) for p in comps]
 
 
 # --------------------------------------------------------------------------- running
@@ -316,6 +320,9 @@ def classify(r):
     if op == "pca" and ("pca-nonfinite-direction" in r.oracle or "pca-not-orthonormal" in r.oracle) and r.op.split()[2] != "1":
         return ("F-C15-3:pca-small-sample-null-direction",
                 f"PCA (small-sample branch) normalises a direction without variance (0/0): `{r.op}` -> {r.oracle}", True)
+    if op == "pca" and "pca-nonfinite-model" in r.oracle and r.op.split()[1] == "1":
+        return ("F-C15-3b:pca-whitening-zero-variance",
+                f"PCA encoder/decoder with whitening divide by sqrt(0) when all points coincide: `{r.op}`", True)
     if op == "lda" and "lda-n-equals-classes" in r.model:
         return ("F-C15-4:lda-n-equals-classes",
                 f"LDA divides the scatter matrix by n - classes = 0: `{r.op}` -> {r.impl[:80]}", True)
@@ -325,7 +332,7 @@ def classify(r):
     return f"mismatch:{op}:{what}", f"model and implementation disagree on `{r.op}`: {r.model}", False
 
 
-def correspond(ctx, name, exes, drv, lines, max_report=4):
+def correspond(ctx, name, exes, drv, lines, max_report=8):
     import time
     t = time.time()
     res = run_until_clean(ctx, exes, drv, lines)
